@@ -208,7 +208,7 @@ def main(argv=None):
             problems.append("case %s: %s" % (r["case"], r["inconclusive"]))
             if r.get("traceback") and a.verbose:
                 print(r["traceback"])
-        if r["missing_covers"]:
+        if r["missing_covers"] and r["status"] == "ok":
             problems.append("case %s: vacuity — path classes never witnessed: %s" % (r["case"], r["missing_covers"]))
     if timed_out:
         done = {r["case"] for r in results}
@@ -225,7 +225,10 @@ def main(argv=None):
     rc = 0
     os.makedirs(os.path.join(VERIF, "replays", prop), exist_ok=True)
     vio_lines = []
-    for job, out in violations:
+    for nv, (job, out) in enumerate(violations):
+        if nv >= 12:
+            print("  ... %d further violations not listed" % (len(violations) - nv))
+            break
         body = dict(property=prop, case=job["case"], model=job["model"], label=job["label"], pretty=job["pretty"],
                     replay_outcome=out)
         h = hashlib.sha1(json.dumps([job["case"]["name"], job["label"], job["model"]], sort_keys=True).encode()).hexdigest()[:12]
